@@ -112,6 +112,49 @@ def r20_1(ctx):
             if rv["k"] == "binop" and rv["op"] in ("Eq", "Ne") and "u8" in (rv["a"].get("ty"), rv["b"].get("ty")):
                 bytes_cmp |= {x for x in (op_int(rv["a"]), op_int(rv["b"])) if x is not None}
     ctx.ob("R20.1", "Position::from_index:newline", bytes_cmp == {10}, pf.loc(), f"line breaks are recognised by byte(s) {sorted(bytes_cmp)}")
+    # search form: the column is the number of bytes BEHIND the last newline - a difference `end - p` taken from the
+    # position p that a backwards search for the newline returned is `end - p - 1`
+    from ..analysis import affine_multi
+    k = 0
+    for g in prog.with_closures(pf):
+        rp = [(b, t) for b, t in g.calls() if callee_is(t, "rposition", "rfind")]
+        # the found position: the payload of the search result here, or the argument of a closure applied to it
+        found = set()
+        for b, t in rp:
+            for bb, ii, ss in g.assigns():
+                pl = op_place(ss["rv"]["op"]) if ss["rv"]["k"] == "use" else None
+                if pl is not None and pl[0] == t["dest"][0] and pl[1]:
+                    found.add(("local", ss["lhs"][0]))
+                    found.add(("place", pl[0], __import__("json").dumps(pl[1])))
+        if g.parent_fn:
+            par = prog.fns.get(g.parent_fn)
+            if par is not None and any(callee_is(t, "map_or", "map", "map_or_else") and g.id in (t.get("arg_adts") or []) and op_local(t["args"][0]) is not None
+                                       and any(lf[0] == "call" and callee_is(lf[2], "rposition", "rfind") for lf in backward_slice(par, [op_local(t["args"][0])])[1]) for b, t in par.calls()):
+                found.add(("local", g.argc))
+        if not found:
+            continue
+        for b, i, st in g.assigns():
+            rv = st["rv"]
+            if rv["k"] == "binop" and rv["op"].startswith("Sub"):
+                x, y = affine_multi(g, rv["a"]), affine_multi(g, rv["b"])
+                if x is None or y is None:
+                    continue
+                form = dict(x)
+                for kk, v in y.items():
+                    form[kk] = form.get(kk, 0) - v
+                hit = [kk for kk in form if kk in found and form[kk] != 0]
+                # only the outermost difference counts: one whose result is not itself subtracted from again
+                if not hit:
+                    continue
+                used_again = any(ss["rv"]["k"] == "binop" and ss["rv"]["op"].startswith(("Sub", "Add")) and st["lhs"][0] in (backward_slice(g, [x_ for x_ in (op_local(ss["rv"]["a"]), op_local(ss["rv"]["b"])) if x_ is not None], through_calls=False)[0] | {op_local(ss["rv"]["a"]), op_local(ss["rv"]["b"])})
+                                 for bb, ii, ss in g.assigns() if ss is not st)
+                if used_again:
+                    continue
+                k += 1
+                ok = form.get(hit[0]) == -1 and form.get(1, 0) == -1
+                ctx.ob("R20.1", f"Position::from_index:column-behind-newline#{k}", ok, g.loc(st.get("ln")),
+                       "the column is end - (position of the last newline) - 1: the bytes behind it" if ok else
+                       f"the column is computed as end - p{form.get(1, 0):+d} from the position p of the last newline: it has to be end - p - 1 (the newline itself is not in the next line)")
 
 
 VISITOR_TRAITS = ("serde_core::de::Visitor", "serde::de::Visitor")
